@@ -93,12 +93,12 @@ impl Prop for C05 {
     type Case = QuadCase;
     fn id(&self) -> &'static str { "C05" }
     fn strategy(&self, tier: Tier, _b: &str) -> BoxedStrategy<QuadCase> {
-        quad_case(vec![QuadKind::Rs256, QuadKind::Rs512], if tier == Tier::Quick { 200_000 } else { 4_000_000 })
+        quad_case(vec![QuadKind::Rs256, QuadKind::Rs512], if tier == Tier::Quick { 1_000_000 } else { 8_000_000 })
     }
     fn cases(&self, tier: Tier, build: &str) -> u32 {
         match (tier, build) {
-            (Tier::Quick, "fast") => 12_000,
-            (Tier::Quick, _) => 5_000,
+            (Tier::Quick, "fast") => 40_000,
+            (Tier::Quick, _) => 15_000,
             (Tier::Thorough, "fast") => 250_000,
             (Tier::Thorough, _) => 80_000,
         }
